@@ -4,11 +4,10 @@
     emitter reads a map only through its (path, item tokens) list. *)
 From Coq Require Import List NArith String Bool Sorted Permutation Lia.
 From V Require Import Base.Strings Base.Result Model.Registry Model.Settings Model.Subst
-  Model.TypePath Model.Derives Model.Generate Model.Emit Proofs.StringOrder Proofs.GenProofs.
+  Model.TypePath Model.Derives Model.Generate Model.Emit Model.Renumber Proofs.StringOrder Proofs.GenProofs.
 Import ListNotations.
 
 (** ** 1. the order on paths *)
-Definition path_lt (a b : list string) : Prop := path_compare a b = Lt.
 
 Lemma path_compare_refl a : path_compare a a = Eq.
 Proof. apply path_compare_eq; reflexivity. Qed.
@@ -53,7 +52,6 @@ Proof.
 Qed.
 
 (** ** 2. the ordered map *)
-Definition items_sorted (m : items) : Prop := StronglySorted path_lt (map fst m).
 
 Lemma items_get_cons k (v : N * type_ir) (m : items) q :
   items_get ((k, v) :: m) q = if path_eqb k q then Some v else items_get m q.
@@ -271,8 +269,6 @@ Proof.
 Qed.
 
 (** insertion order does not matter *)
-Definition insert_all (l : list (list string * (N * type_ir))) (acc : items) : items :=
-  fold_left (fun m e => items_insert m (fst e) (snd e)) l acc.
 
 Lemma insert_all_cons e l acc :
   insert_all (e :: l) acc = insert_all l (items_insert acc (fst e) (snd e)).
